@@ -9,7 +9,7 @@ Import ListNotations.
 Open Scope N_scope.
 
 (* lia extended with div/mod by constants *)
-Ltac divlia := zify; Z.div_mod_to_equations; lia.
+Ltac divlia := zify; Z.to_euclidean_division_equations; lia.
 
 (* length as a binary number, one pass, no unary intermediate *)
 Fixpoint len_acc (bs : bytes) (acc : N) : N :=
